@@ -1361,3 +1361,25 @@ mut("replay_skips_short_records", ["C01", "C02", "C06"], "ORD-6|db::DB::recover_
 mut("batch_count_decoded_as_u8", ["C01", "C02", "C08"], "AGR-2", patch="batch_count_decoded_as_u8.diff")
 mut("block_handle_offset_u32", ["C13", "C01"], "AGR-2", file="src/tables/block_handle.rs", old="value.offset.encode_var_vec()", new="(value.offset as u32).encode_var_vec()", suite=False)
 mut("revert_D17", ["C15", "C08"], "ERR-3", patch="revert_D17_merge_seek_swallows_child_error.diff", note="MergingIterator::seek* return Ok although a child could not be positioned")
+mut("finish_output_without_builder_test", ["C09", "C10"], "GRD-25", patch="finish_output_without_builder_test.diff")
+mut("blocking_file_lock", ["C09", "C17"], "GRD-9", patch="blocking_file_lock.diff")
+mut("recover_reports_torn_manifest_as_reused", ["C16", "C11", "C02"], "GRD-26", patch="recover_reports_torn_manifest_as_reused.diff")
+mut("damaged_record_report_before_eof_classification", ["C16", "C12", "C02"], "GRD-6|logs::LogReader::read_record|error-kind-examined-before-any-exit", patch="damaged_record_report_before_eof_classification.diff")
+mut("table_get_no_filter_means_absent", ["C14", "C13", "C01"], "GRD-7|tables::table::Table::get|no-filter-means-may-match", patch="table_get_no_filter_means_absent.diff")
+benign_patch("table_get_filter_probe_map_or_true", "benign/table_get_filter_probe_map_or_true.diff", note="Table::get: is_some && !unwrap().key_may_match -> map_or(true, |f| f.key_may_match(..))")
+benign_patch("refactor_s9_01", "benign/set9_refactor01.diff", note="TryFrom<&[u8]> for Batch: for -> while with counter")
+benign_patch("refactor_s9_02", "benign/set9_refactor02.diff", note="From<&BatchElement>: locals")
+benign_patch("refactor_s9_03", "benign/set9_refactor03.diff", note="BatchElement::read_element: if/else -> match on Operation")
+benign_patch("refactor_s9_04", "benign/set9_refactor04.diff", note="read_physical_record: skip_block_trailer helper")
+benign_patch("refactor_s9_05", "benign/set9_refactor05.diff", note="recover_wal_records: while -> loop/break with a single read site")
+benign_patch("refactor_s9_06", "benign/set9_refactor06.diff", note="recover_unrecorded_logs: cmp::max; x = x || y -> if")
+benign_patch("refactor_s9_07", "benign/set9_refactor07.diff", note="maybe_reuse_manifest: flattened into match + early return; plain u64")
+benign_patch("refactor_s9_08", "benign/set9_refactor08.diff", note="coordinate_compaction: Ok arm extracted into finish_table_compaction")
+benign_patch("refactor_s9_09", "benign/set9_refactor09.diff", note="release_version: early return")
+benign_patch("refactor_s9_10", "benign/set9_refactor10.diff", note="DatabaseIterator::prev: if let -> match")
+benign_patch("refactor_s9_11", "benign/set9_refactor11.diff", note="DatabaseIterator::next: hoisted trailing validity check")
+benign_patch("refactor_s9_12", "benign/set9_refactor12.diff", note="apply_changes: pop-and-notify loop extracted into a helper")
+benign_patch("refactor_s9_13", "benign/set9_refactor13.diff", note="BlockHandle::deserialize: is_none/unwrap -> match")
+benign_patch("refactor_s9_14", "benign/set9_refactor14.diff", note="FileMetadata::deserialize: read_internal_key helper")
+benign_patch("refactor_s9_15", "benign/set9_refactor15.diff", note="BlockBuilder::add_entry: shared_prefix_length helper")
+benign_patch("refactor_s9_16", "benign/set9_refactor16.diff", note="record_read_sample: early return")
